@@ -515,7 +515,10 @@ class SoftwareSwitchBase (object):
     entry = self.table.entry_for_packet(packet, in_port)
     if entry is not None:
       self._matched_count += 1
-      entry.touch_packet(len(packet))
+      # (Count the frame as received, like the port counter above does; the
+      # parsed packet packs without any Ethernet padding/trailer.)
+      entry.touch_packet(len(packet_data) if packet_data is not None
+                         else len(packet))
       self._process_actions_for_packet(entry.actions, packet, in_port)
     else:
       # no matching entry
